@@ -112,6 +112,7 @@ package keygen
 //@   requires forall i in 0..13 :: prf[i] != nil
 //@   modifies sent(ch)
 //@   ensures sent(ch) == old(sent(ch)) + 1
+//@   ensures [C03.the-reported-outcome-is-the-outcome-of-the-proof-check] sentb(ch, old(sent(ch))) == pailverify(prf, bvheap(), val(round.save.PaillierPKs[j].N), val(PIDs[j]), px(ecdsaPub), py(ecdsaPub))
 
 //@ func (*round4).Start
 //@   props C06 C05 C03
